@@ -180,7 +180,7 @@ def run(chk, repo, tier):
     from .common import no_hidden_state
     no_hidden_state(chk, repo, 'C02')
     chk.clause('C02-a', 'alpha = dx*du/(wavelength*z*oversample) per axis, with consistent units', 4)
-    chk.clause('C02-b', 'call contracts of propagate_dft (alpha, windows, dft2 arguments, output Field)', 40)
+    chk.clause('C02-b', 'call contracts of propagate_dft (alpha, windows, dft2 arguments, output Field)', 20)
     chk.clause('C02-c', 'tilt shift comes back as (row, col) in oversampled output samples of the same axis', 2)
     chk.clause('C02-d', 'result carries input wavelength / focal length and du/oversample sampling', 9)
     chk.clause('C02-e', 'windows only select samples: alpha and the transformed data do not depend on them', 12)
